@@ -527,6 +527,8 @@ var nmServerCfgs = []struct{ domain, fallback string }{
 	{".a.b", "http://fallback.wonderwall"},
 	{"wonderwall.example", "https://www.wonderwall.example"},
 	{"example.com", "https://www.example.com:8443/"},
+	{"nais.io", "https://www.nais.io/"},
+	{".skik.test", "https://min.skik.test/side"},
 }
 
 var nmProxyIngresses = []string{proxyIng, "https://p.a.b", "http://p.a.b:8080/pre/", "https://app.example.com", "http://proxy.wonderwall"}
